@@ -4,6 +4,7 @@ CONSTANTS
   Rows <- RowsB
   Atoms <- AtomsB
   MaxLevel = 1
+  WithPairs = FALSE
   ReasonBug = FALSE
 INVARIANT RowsEquivalent
 INVARIANT BasicDisjoint
